@@ -152,6 +152,9 @@ func genC17(t *Tape) *lifeScenario {
 	sc.ShutdownCtx = 5 * time.Second
 	if sc.Action == "shutdown_tight" {
 		sc.ShutdownCtx = time.Duration(1+t.Choose(80)) * time.Millisecond
+		if t.Chance(1, 6) {
+			sc.ShutdownCtx = 0 // a context whose deadline has already passed when Shutdown is called
+		}
 	}
 	nc := t.Pick(1, 3, 3, 2, 1, 1)
 	tid := uint16(100 + t.Choose(1000))
@@ -165,7 +168,11 @@ func genC17(t *Tape) *lifeScenario {
 			switch t.Pick(5, 2, 1) {
 			case 0:
 				fc := []byte{3, 4, 1, 6, 16, 5}[t.Choose(6)]
-				r, ok := genValidSrvReq(t, fc, byte(1+c), tid)
+				unit := byte(1 + c)
+				if t.Chance(1, 8) {
+					unit = []byte{0, 255}[t.Choose(2)]
+				}
+				r, ok := genValidSrvReq(t, fc, unit, tid)
 				tid++
 				if !ok {
 					continue
